@@ -39,6 +39,7 @@ func allowedStamps(c *gen.Case) map[int64]bool {
 	}
 	for _, n := range c.Tree.Nodes {
 		a[n.MTime] = true
+		a[n.MTimeRounded()] = true // archive writers may round the sub-second part
 	}
 	var walk func(l []*gen.Content)
 	walk = func(l []*gen.Content) {
